@@ -869,6 +869,9 @@ CORPUS_HISTORIES = [
 CORPUS_RAW = [
     # absurd length: MemoryError from files / gzip readers, EndOfStreamError from bytes (repaired)
     ('absurd length', 'ber', None, '0485ffffffffff6162'),
+    # no octets at all: the same insufficient-data answer from every kind (an empty OCTET STRING / ANY object included)
+    ('empty input', 'ber', None, ''), ('empty input', 'der', None, ''), ('empty input', 'cer', 'int', ''),
+    ('one octet', 'ber', None, '30'), ('two octets', 'der', 'int', '0201'),
 ]
 
 CORPUS_DECODES = [
